@@ -246,6 +246,22 @@ def p_recursive(version):
     return pt.compileTeal(pt.Seq(logit(pt.Itob(fact(pt.Int(4)))), pt.Int(1)), pt.Mode.Application, version=version)
 
 
+def p_recursive_reserved(version):
+    """a recursive routine whose local slots have requested ids that collide in small hash tables (1, 9, 17, 25,
+    33 and 2, 10): any iteration over a SET of them is order-sensitive"""
+    @pt.Subroutine(pt.TealType.uint64)
+    def walk(n):
+        vs = [pt.ScratchVar(pt.TealType.uint64, sid) for sid in (17, 1, 33, 9, 25, 10, 2)]
+        autos = [pt.ScratchVar(pt.TealType.uint64) for _ in range(3)]
+        allv = vs + autos
+        tot = pt.Int(0)
+        for v in allv:
+            tot = tot + v.load()
+        return pt.Seq(*[v.store(n + pt.Int(i)) for i, v in enumerate(allv)],
+                      pt.If(n == pt.Int(0)).Then(pt.Int(1)).Else(walk(n - pt.Int(1)) + tot))
+    return pt.compileTeal(walk(pt.Int(3)), pt.Mode.Application, version=version, optimize=pt.OptimizeOptions(frame_pointers=False))
+
+
 def p_router(version):
     ap, cl, contract = _router().compile_program(version=version)
     return ap + "\n=====\n" + cl + "\n=====\n" + json.dumps(contract.dictify(), sort_keys=True)
@@ -447,7 +463,7 @@ def s_named(version, mid):
 SPLIT_PROBES = {"split_slots": s_slots, "split_subs": s_subs, "split_router": s_router, "split_abi": s_abi,
                 "split_named": s_named}
 
-PROBES = {"named_things": p_named_things, "abi_main": p_abi_main, "recursive": p_recursive, "router": p_router, "slots": p_slots,
+PROBES = {"recursive_reserved": p_recursive_reserved, "named_things": p_named_things, "abi_main": p_abi_main, "recursive": p_recursive, "router": p_router, "slots": p_slots,
           "same_expr_twice": p_same_expr_twice, "same_expr_probe_between": p_same_expr_probe_between,
           "router_twice": p_router_twice, "same_expr_one_compilation_object": p_same_compilation_twice}
 PROBE_VERSIONS = (6, 8)
